@@ -154,6 +154,9 @@ def run(ck):
         ck.guard("C01-R9", r9_fill_lengths, ck, F)
         from .c14 import entry_frame_agreement
         ck.guard("C01-R11", entry_frame_agreement, ck, F, "C01-R11")
+        # the in-block offset table the backward scan walks (shared with C02-R4)
+        from .c02 import r4_offsets
+        ck.guard("C01-R12", r4_offsets, ck, F, "C01-R12")
         # what is written reaches the sink whole and in order, and offsets are the sink's byte count
         from .c11 import r2_count_accepted, r1_write_all
         ck.guard("C01-R10", r2_count_accepted, ck, F, "C01-R10")
